@@ -251,6 +251,190 @@ Qed.
 
 End Deltify.
 
+(* ---------- the call log is faithful to the oracle: entry i carries tx i ---------- *)
+Section LogFaithful.
+Variable D : Type.
+Variable H : list byte -> D.
+Variable Deqb : D -> D -> bool.
+Variable fixed : bool.
+Variable tx : nat -> bool.
+
+Inductive ext : tlog -> tlog -> Prop :=
+| ext_refl : forall t, ext t t
+| ext_step : forall t t' o, ext t t' -> ext t (fst (transmit tx t' o)).
+
+Lemma ext_trans : forall a b c, ext a b -> ext b c -> ext a c.
+Proof. intros a b c Hab Hbc. induction Hbc; [exact Hab|]. apply ext_step. apply IHHbc. exact Hab. Qed.
+
+Lemma ext_one : forall t o, ext t (fst (transmit tx t o)).
+Proof. intros. apply ext_step. apply ext_refl. Qed.
+
+Definition log_ok (t : tlog) : Prop := forall i b, nth_error (map snd t) i = Some b -> b = tx i.
+
+Lemma log_ok_ext : forall t t', ext t t' -> log_ok t -> log_ok t'.
+Proof.
+  intros t t' He. induction He as [|t t' o He IH]; intro Hok; [exact Hok|].
+  specialize (IH Hok). unfold transmit. cbn [fst]. intros i b Hn.
+  rewrite map_app in Hn. cbn [map snd] in Hn.
+  destruct (Nat.lt_ge_cases i (length (map snd t'))) as [Hlt|Hge].
+  - rewrite nth_error_app1 in Hn by exact Hlt. now apply IH.
+  - rewrite nth_error_app2 in Hn by exact Hge. rewrite map_length in *.
+    destruct (i - length t') as [|k] eqn:Ek; cbn in Hn.
+    + inversion Hn; subst b. f_equal. lia.
+    + destruct k; discriminate.
+Qed.
+
+Lemma send_chunks_ext : forall fuel maxop t data, ext t (fst (send_chunks tx fuel maxop t data)).
+Proof.
+  induction fuel as [|f IH]; intros maxop t data.
+  - destruct data; apply ext_refl.
+  - destruct data as [|x r]; [apply ext_refl|]. cbn [send_chunks].
+    pose proof (ext_one t (data_op (firstn (Nat.min (length (x :: r)) maxop) (x :: r)))) as H1.
+    destruct (transmit tx t _) as [t' ok]. cbn [fst] in H1.
+    destruct ok; [|exact H1]. eapply ext_trans; [exact H1|apply IH].
+Qed.
+
+Lemma chunk_all_ext : forall fuel maxop t tg, ext t (fst (chunk_all tx fuel maxop t tg)).
+Proof.
+  induction fuel as [|f IH]; intros maxop t tg; cbn [chunk_all]; [apply ext_refl|].
+  destruct tg as [|x r]; [apply ext_refl|].
+  destruct (length (x :: r) <? maxop).
+  - pose proof (ext_one t (data_op (x :: r))) as H1. destruct (transmit tx t _) as [t' ok]. exact H1.
+  - pose proof (ext_one t (data_op (firstn maxop (x :: r)))) as H1.
+    destruct (transmit tx t _) as [t' ok]. cbn [fst] in H1.
+    destruct ok; [|exact H1]. eapply ext_trans; [exact H1|apply IH].
+Qed.
+
+Lemma send_data_ext : forall maxop e data, ext (et e) (et (fst (send_data tx maxop e data))).
+Proof.
+  intros maxop e data. unfold send_data.
+  destruct ((0 <? length data) && (0 <? ecc e)).
+  - pose proof (ext_one (et e) (block_op (ecs e) (ecc e))) as H1.
+    destruct (transmit tx (et e) _) as [t' ok]. cbn [fst] in H1.
+    destruct ok; [|exact H1].
+    pose proof (send_chunks_ext (length data) maxop t' data) as H2.
+    destruct (send_chunks tx (length data) maxop t' data) as [t'' r]. cbn [fst et] in *.
+    eapply ext_trans; eassumption.
+  - pose proof (send_chunks_ext (length data) maxop (et e) data) as H2.
+    destruct (send_chunks tx (length data) maxop (et e) data) as [t'' r]. exact H2.
+Qed.
+
+Lemma send_block_ext : forall e idx, ext (et e) (et (fst (send_block fixed tx e idx))).
+Proof.
+  intros e idx. unfold send_block.
+  destruct (0 <? ecc e); [|apply ext_refl].
+  destruct (ecs e + ecc e =? idx); [apply ext_refl|].
+  pose proof (ext_one (et e) (block_op (ecs e) (ecc e))) as H1.
+  destruct (transmit tx (et e) _) as [t' ok]. cbn [fst] in H1.
+  destruct ok; [exact H1|]. destruct fixed; exact H1.
+Qed.
+
+Variable s : sig D.
+Variable maxop : nat.
+
+Lemma data_block_ext : forall e pfx idx (buf : list byte),
+  ext (et e) (et (fst (fst
+    (let '(e1, r1) := send_data tx maxop e pfx in
+     match r1 with
+     | DOk => let '(e2, r2) := send_block fixed tx e1 idx in
+              match r2 with DOk => (e2, DOk, []) | _ => (e2, r2, buf) end
+     | _ => (e1, r1, buf)
+     end)))).
+Proof.
+  intros e pfx idx buf.
+  pose proof (send_data_ext maxop e pfx) as H1.
+  destruct (send_data tx maxop e pfx) as [e1 r1]. cbn [fst] in H1.
+  destruct r1; try exact H1.
+  pose proof (send_block_ext e1 idx) as H2.
+  destruct (send_block fixed tx e1 idx) as [e2 r2]. cbn [fst] in H2.
+  destruct r2; cbn [fst]; eapply ext_trans; eassumption.
+Qed.
+
+Lemma react_ext : forall e buf w, ext (et e) (et (fst (fst (react H Deqb fixed tx s maxop e buf w)))).
+Proof.
+  intros e buf w. unfold react.
+  destruct (find_match Deqb (full_hashes s) 0 w (H (skipn (length buf - sblk s) buf))).
+  - apply data_block_ext.
+  - destruct (length buf =? buf_cap s maxop); [|apply ext_refl].
+    pose proof (send_data_ext maxop e (firstn (length buf - sblk s) buf)) as H1.
+    destruct (send_data tx maxop e _) as [e1 r1]. cbn [fst] in H1. destruct r1; exact H1.
+Qed.
+
+Lemma main_loop_ext : forall fuel e buf r1 r2 rem,
+  ext (et e) (et (fst (fst (main_loop H Deqb fixed tx s maxop fuel e buf r1 r2 rem)))).
+Proof.
+  induction fuel as [|f IH]; intros e buf r1 r2 rem; cbn [main_loop]; [apply ext_refl|].
+  destruct (advance s maxop buf r1 r2 rem) as [buf'| |buf' w a c rem']; try apply ext_refl.
+  pose proof (react_ext e buf' w) as H1.
+  destruct (react H Deqb fixed tx s maxop e buf' w) as [[e' r] buf'']. cbn [fst] in H1.
+  destruct r; try exact H1. eapply ext_trans; [exact H1|apply IH].
+Qed.
+
+Lemma tail_ext : forall e buf, ext (et e) (et (fst (tail_phase H Deqb fixed tx s maxop e buf))).
+Proof.
+  intros e buf. unfold tail_phase. cbv zeta.
+  match goal with |- context [if ?c then _ else (e, DOk, buf)] => set (hit := c) end.
+  set (X := if hit then _ else (e, DOk, buf)).
+  assert (HX : ext (et e) (et (fst (fst X)))).
+  { subst X. destruct hit; [apply data_block_ext|apply ext_refl]. }
+  clearbody X. clear hit. destruct X as [[e1 r1] buf1]. cbn [fst] in HX.
+  destruct r1; try exact HX.
+  pose proof (send_data_ext maxop e1 buf1) as H2.
+  destruct (send_data tx maxop e1 buf1) as [e2 r2]. cbn [fst] in H2.
+  assert (H12 : ext (et e) (et e2)) by (eapply ext_trans; eassumption).
+  destruct r2; try exact H12.
+  destruct (0 <? ecc e2); [|exact H12].
+  pose proof (ext_one (et e2) (block_op (ecs e2) (ecc e2))) as H3.
+  destruct (transmit tx (et e2) _) as [t' ok]. cbn [fst et] in *.
+  eapply ext_trans; eassumption.
+Qed.
+
+End LogFaithful.
+
+Theorem log_faithful : forall (D : Type) (H : list byte -> D) Deqb fixed tx target s maxop0 i b,
+  nth_error (map snd (snd (deltify_tx H Deqb fixed tx target s maxop0))) i = Some b -> b = tx i.
+Proof.
+  intros D H Deqb fixed tx target s maxop0.
+  assert (Hext : ext tx [] (snd (deltify_tx H Deqb fixed tx target s maxop0))).
+  { unfold deltify_tx. destruct (shashes s).
+    - pose proof (chunk_all_ext tx (S (length target)) (eff_max maxop0) [] target) as H1.
+      destruct (chunk_all tx _ _ [] target) as [t r]. exact H1.
+    - pose proof (main_loop_ext D H Deqb fixed tx s (eff_max maxop0) (S (length target)) (mkes [] 0 0) [] 0%Z 0%Z target) as H1.
+      destruct (main_loop H Deqb fixed tx s _ _ _ [] 0%Z 0%Z target) as [[e r] buf]. cbn [fst et] in H1.
+      destruct r; try exact H1.
+      pose proof (tail_ext D H Deqb fixed tx s (eff_max maxop0) e buf) as H2.
+      destruct (tail_phase H Deqb fixed tx s _ e buf) as [e' r']. cbn [fst snd] in *.
+      eapply ext_trans; eassumption. }
+  apply (log_ok_ext tx _ _ Hext). intros i b Hn. destruct i; discriminate.
+Qed.
+
+(* no failed entry in the log  <->  every call that was made succeeded *)
+Lemma any_failed_false_iff : forall t, any_failed t = false <-> forall i b, nth_error (map snd t) i = Some b -> b = true.
+Proof.
+  induction t as [|[o ok] t IH]; split.
+  - intros _ i b Hn. destruct i; discriminate.
+  - reflexivity.
+  - intros Hf i b Hn. cbn [any_failed existsb snd] in Hf. apply orb_false_iff in Hf. destruct Hf as [Hok Hf].
+    apply negb_false_iff in Hok. destruct i; cbn in Hn; [congruence|]. eapply (proj1 IH); eauto.
+  - intros Hall. cbn [any_failed existsb snd]. apply orb_false_iff. split.
+    + apply negb_false_iff. apply (Hall 0). reflexivity.
+    + apply IH. intros i b Hn. apply (Hall (S i)). exact Hn.
+Qed.
+
+Theorem no_silent_loss_calls : forall (D : Type) (H : list byte -> D) Deqb tx target s maxop0 t,
+  deltify_tx H Deqb true tx target s maxop0 = (DOk, t) ->
+  (forall i, i < length t -> tx i = true) /\
+  deltify_tx H Deqb true all_ok target s maxop0 = (DOk, t).
+Proof.
+  intros D H Deqb tx target s maxop0 t E.
+  destruct (no_silent_loss D H Deqb tx target s maxop0 t E) as [Hn Eok]. split; [|exact Eok].
+  intros i Hi.
+  destruct (nth_error (map snd t) i) as [b|] eqn:En.
+  - pose proof (log_faithful D H Deqb true tx target s maxop0 i b) as Hf. rewrite E in Hf. cbn [snd] in Hf.
+    rewrite <- (Hf En). eapply (proj1 (any_failed_false_iff t)); eauto.
+  - apply nth_error_None in En. rewrite map_length in En. lia.
+Qed.
+
 (* ---------- the checker check_C20 ---------- *)
 Theorem check_C20_sound : forall (D : Type) (H : list byte -> D) base target blk err t,
   check_C20 H base target blk err t = true ->
